@@ -353,7 +353,7 @@ Definition guard_find_root (f : T -> T) (xl xr : T) : res unit :=
   let fl := f xl' in
   let fr := f xr' in
   if nisnan Ops fl || nisnan Ops fr then Exit
-  else if ngeb Ops (fl * fr)%num zero then
+  else if (sign1 Ops fl * sign1 Ops fr >=? 0)%Z then
     (if neqb Ops fl zero then Ok tt else if neqb Ops fr zero then Ok tt else Exit)
   else Ok tt.
 (** Inv_Erf(p) *)
@@ -488,6 +488,74 @@ Definition guard_interpolation_2d_table (data : list (list T)) : res unit :=
       else at_ (zlen x) ix ;; at_ (zlen y) iy ;; at_ (zlen row) 2)) ;;
     guard_interpolation_2d x y (rect (zlen x) (zlen y)).
 
+(** *** Unit arguments and several requests on one object
+    Interpolation(arg_values, func_values, x_dim, f_dim): the table is validated as given, then
+    `if(x_dim > 0.0) x_values[i] *= x_dim` (the default -1 leaves it as it is), and
+    `domain = {x_values[0], x_values[N - 1]}` is taken from the converted abscissae; every later request is
+    judged against the converted table. *)
+Definition scale_units (dim : T) (l : list T) : list T :=
+  if ngtb Ops dim zero then map (fun v => (v * dim)%num) l else l.
+Definition interp_domain (xs : list T) : res (T * T) :=
+  let* a := getZ xs 0 in let* b := getZ xs (u32 (zlen xs - 1)) in Ok (a, b).
+(** the requests of one object, in the order in which they are made.  Derivative(x, n) calls Locate(x) (and
+    Interpolate(x) for n = 0); Global_Minimum / Global_Maximum only scan the function values *)
+Inductive icall : Type :=
+| ILocate (x : T) | IEval (x : T) | IDeriv (x : T) (n : Z) | IIntegrate (a b : T)
+| ILocalMin (a b : T) | ILocalMax (a b : T) | IGlobal.
+Definition guard_icall (xs : list T) (c : icall) : res unit :=
+  match c with
+  | ILocate x => let* _ := locate xs x in Ok tt
+  | IEval x => guard_interpolate xs x
+  | IDeriv x n => guard_interpolate xs x ;; (if n =? 0 then guard_interpolate xs x else Ok tt)
+  | IIntegrate a b => guard_interp_integrate xs a b
+  | ILocalMin a b => guard_local_extremum xs a b
+  | ILocalMax a b => guard_local_extremum xs a b
+  | IGlobal => for_range 0 (zlen xs) (fun i => at_ (zlen xs) i)
+  end.
+Fixpoint guard_icalls (xs : list T) (cs : list icall) : res unit :=
+  match cs with [] => Ok tt | c :: r => guard_icall xs c ;; guard_icalls xs r end.
+(** construction with unit arguments, then the requests; returns `domain` *)
+Definition interp_session (xs : list T) (nf : Z) (x_dim f_dim : T) (cs : list icall) : res (T * T) :=
+  guard_interpolation xs nf ;;
+  let xs' := scale_units x_dim xs in
+  let* d := interp_domain xs' in
+  guard_icalls xs' cs ;; Ok d.
+Definition interp_table_session (data : list (list T)) (x_dim f_dim : T) (cs : list icall) : res (T * T) :=
+  guard_interpolation_table data ;;
+  let xs' := scale_units x_dim (map (fun row => nth 0 row zero) data) in
+  let* d := interp_domain xs' in
+  guard_icalls xs' cs ;; Ok d.
+(** Interpolation_2D(x, y, f, x_dim, y_dim, f_dim): shape test, conversion, then the two dummy 1D objects are
+    built from the CONVERTED grids (so these are validated after the conversion) *)
+Fixpoint guard_icalls_2d (xs ys : list T) (pts : list (T * T)) : res unit :=
+  match pts with [] => Ok tt | p :: r => guard_interpolate_2d xs ys (fst p) (snd p) ;; guard_icalls_2d xs ys r end.
+Definition interp2d_session (xs ys : list T) (lens : list Z) (x_dim y_dim : T) (pts : list (T * T)) : res (T * T * (T * T)) :=
+  let xs' := scale_units x_dim xs in
+  let ys' := scale_units y_dim ys in
+  guard_interpolation_2d xs' ys' lens ;;
+  let* dx := interp_domain xs' in
+  let* dy := interp_domain ys' in
+  guard_icalls_2d xs' ys' pts ;; Ok (dx, dy).
+(** Interpolation_2D(data_table, x_dim, y_dim, f_dim): as [guard_interpolation_2d_table], the unit arguments are
+    handed on to the grid constructor *)
+Definition interp2d_table_session (data : list (list T)) (x_dim y_dim : T) (pts : list (T * T)) : res (T * T * (T * T)) :=
+  for_range 0 (zlen data) (fun i => let* row := getZ data i in
+     if negb (zlen row =? 3) then Exit else at_ (zlen row) 0 ;; at_ (zlen row) 1) ;;
+  let x := sort_unique (map (fun row => nth 0 row zero) data) in
+  let y := sort_unique (map (fun row => nth 1 row zero) data) in
+  if negb (zlen x * zlen y =? zlen data) then Exit
+  else
+    for_range 0 (zlen x) (fun ix => for_range 0 (zlen y) (fun iy =>
+      let i := ix * zlen y + iy in
+      let* row := getZ data i in
+      let* xv := getZ x ix in
+      let* yv := getZ y iy in
+      let* d0 := getZ row 0 in
+      let* d1 := getZ row 1 in
+      if negb (neqb Ops xv d0) || negb (neqb Ops yv d1) then Exit
+      else at_ (zlen x) ix ;; at_ (zlen y) iy ;; at_ (zlen row) 2)) ;;
+    interp2d_session x y (rect (zlen x) (zlen y)) x_dim y_dim pts.
+
 (** Locate_Closest_Location(sorted_list, target) *)
 Fixpoint is_sorted (l : list T) : bool :=
   match l with
@@ -547,3 +615,127 @@ Definition guard_inverse (rows cols : Z) (m : list (list T)) : res unit :=
       for_range 0 N (fun i => for_range N (2 * N) (fun j => guard_mat_index N i ;; at_ (2 * N) j ;; at_ (2 * N) i)) ;;
       for_range 0 N (fun t => guard_delete_column N (2 * N - t) 0).
 End Num.
+
+(** ** 8. Call histories on one object *)
+(** *** Factorial / Binomial_Coefficient: the memo table grows with every accepted request *)
+Inductive fcall : Type := FFact (n : Z) | FBinom (n k : Z).
+Definition factorial_call {T} (Ops : NumOps T) (memo : Z) (c : fcall) : res Z :=
+  match c with
+  | FFact n => guard_factorial memo n ;; Ok (Z.max memo (n + 1))
+  | FBinom n k =>
+      guard_binomial_coefficient Ops memo n k ;;
+      Ok (if (n <? k) || (n >? 170) then memo else Z.max memo (n + 1))
+  end.
+Fixpoint factorial_session {T} (Ops : NumOps T) (memo : Z) (cs : list fcall) : res unit :=
+  match cs with
+  | [] => Ok tt
+  | c :: r => let* memo' := factorial_call Ops memo c in factorial_session Ops memo' r
+  end.
+
+(** *** Vector: (dimension, components.size()) *)
+Record vec : Type := { v_dim : Z; v_len : Z }.
+Inductive vec_op : Type := VResize (d : Z) | VAssign (d : Z) | VCopy | VSet (d : Z) | VAddEq (d : Z).
+Inductive vec_probe : Type := VPNone | VPAt (i : Z) | VPBinary (d : Z) | VPCross (d : Z).
+Definition vec_new (d : Z) : vec := {| v_dim := d; v_len := d |}.
+Definition vec_wfb (v : vec) : bool := v_len v =? v_dim v.
+Definition vec_step (v : vec) (o : vec_op) : res vec :=
+  match o with
+  | VResize d => Ok {| v_dim := d; v_len := d |}          (* dimension = dim; components.resize(dim) *)
+  | VAssign d => Ok {| v_dim := d; v_len := d |}          (* dimension = dim; components.assign(dim, entry) *)
+  | VCopy => Ok {| v_dim := v_dim v; v_len := v_len v |}  (* Vector(const Vector&) copies both members *)
+  | VSet d => Ok (vec_new d)                              (* operator=(Vector(d, entry)) *)
+  | VAddEq d =>
+      if negb (v_dim v =? d) then Exit
+      else for_range 0 (v_dim v) (fun i => at_ (v_len v) i ;; guard_vec_index d i) ;; Ok v
+  end.
+Fixpoint vec_history (v : vec) (ops : list vec_op) : res vec :=
+  match ops with [] => Ok v | o :: r => let* v' := vec_step v o in vec_history v' r end.
+Definition vec_probe_guard (v : vec) (p : vec_probe) : res unit :=
+  if negb (vec_wfb v) then OOB else
+  match p with
+  | VPNone => Ok tt
+  | VPAt i => guard_vec_index (v_dim v) i
+  | VPBinary d => guard_vec_binary (v_dim v) d
+  | VPCross d => guard_cross (v_dim v) d
+  end.
+Definition vec_session (d : Z) (ops : list vec_op) (p : vec_probe) : res vec :=
+  let* v := vec_history (vec_new d) ops in vec_probe_guard v p ;; Ok v.
+
+(** *** Matrix: rows, columns and the lengths of the rows of `components`.  Every member function reads
+    components[i][j] for i < rows, j < columns, i.e. relies on the representation invariant
+    "components holds `rows` rows of `columns` entries".  The member functions that restructure `components`
+    (Resize, Assign, Delete_Row, Delete_Column, copy, assignment) are modelled on the actual row lengths; the others
+    are the guards of section 2 when the invariant holds and [OOB] when it does not. *)
+Record mat : Type := { m_rows : Z; m_cols : Z; m_lens : list Z }.
+Definition mat_new (r c : Z) : mat := {| m_rows := r; m_cols := c; m_lens := rect r c |}.
+(** Matrix(std::vector<std::vector<double>> entries) for a regular table: rows(entries.size()),
+    columns(entries.empty() ? 0 : entries[0].size()) *)
+Definition mat_of_rows (lens : list Z) : mat :=
+  {| m_rows := zlen lens; m_cols := (if zlen lens =? 0 then 0 else nth 0 lens 0); m_lens := lens |}.
+Definition mat_wfb (m : mat) : bool :=
+  (zlen (m_lens m) =? m_rows m) && forallb (fun l => l =? m_cols m) (m_lens m).
+(** std::vector::resize(n): the first n elements stay, value-initialised ones are appended *)
+Definition vresize {A} (n : Z) (l : list A) (d : A) : list A :=
+  firstn (Z.to_nat n) l ++ repeat d (Z.to_nat (n - zlen l)).
+Inductive mat_op : Type :=
+| MResize (r c : Z) | MAssign (r c : Z) | MDelRow (i : Z) | MDelCol (j : Z) | MCopy | MSet (r c : Z)
+| MPlusEq (r c : Z) | MSum (r c : Z) | MProd (r c : Z) | MTranspose.
+Inductive mat_probe : Type :=
+| PNone | PAt (i : Z) | PRow (i : Z) | PCol (j : Z) | PPlus (r c : Z) | PPlusEq (r c : Z) | PMul (r c : Z) | PLMul (r c : Z)
+| PMatVec (d : Z) | PVecMat (d : Z) | PTrace | PDet | PTranspose | PSub (i j : Z) | PEq.
+Definition mat_step (m : mat) (o : mat_op) : res mat :=
+  let r := m_rows m in let c := m_cols m in let lens := m_lens m in
+  match o with
+  | MResize r' c' | MAssign r' c' =>
+      (* rows = row; columns = col; components.resize(row); for(i < rows) components[i].resize(col) / .assign(col, entry).
+         A negative int becomes a size of 2^64 - k: std::length_error *)
+      if (r' <? 0) || (c' <? 0) then OOB
+      else let comps := vresize r' lens 0 in
+           for_range 0 r' (fun i => at_ (zlen comps) i) ;;
+           Ok {| m_rows := r'; m_cols := c'; m_lens := map (fun _ => c') comps |}
+  | MDelRow i =>
+      if (i <? 0) || (i >=? r) then Exit
+      else at_ (zlen lens) i ;;        (* components.erase(components.begin() + row) *)
+           Ok {| m_rows := r - 1; m_cols := c; m_lens := firstn (Z.to_nat i) lens ++ skipn (Z.to_nat (i + 1)) lens |}
+  | MDelCol j =>
+      if (j <? 0) || (j >=? c) then Exit
+      else for_range 0 r (fun i => let* l := getZ lens i in at_ l j) ;;   (* components[i].erase(begin() + column) *)
+           Ok {| m_rows := r; m_cols := c - 1;
+                 m_lens := map (fun l => l - 1) (firstn (Z.to_nat r) lens) ++ skipn (Z.to_nat r) lens |}
+  | MCopy => Ok {| m_rows := r; m_cols := c; m_lens := lens |}
+  | MSet r' c' => Ok (mat_new r' c')
+  | MPlusEq r' c' => if negb (mat_wfb m) then OOB else guard_mat_pluseq r c r' c' ;; Ok m
+  | MSum r' c' =>     (* M = M + B: the result goes through Matrix(result_components) *)
+      if negb (mat_wfb m) then OOB else guard_mat_plus r c r' c' ;; Ok (mat_of_rows (rect r c))
+  | MProd r' c' =>    (* M = M * B: Matrix result(rows, B.Columns(), 0.0) *)
+      if negb (mat_wfb m) then OOB else guard_mat_product r c r' c' ;; Ok (mat_new r c')
+  | MTranspose =>     (* M = M.Transpose(): Matrix(result_components) with `columns` rows of `rows` entries *)
+      if negb (mat_wfb m) then OOB else guard_transpose r c ;; Ok (mat_of_rows (rect c r))
+  end.
+Fixpoint mat_history (m : mat) (ops : list mat_op) : res mat :=
+  match ops with [] => Ok m | o :: r => let* m' := mat_step m o in mat_history m' r end.
+Definition mat_probe_guard (m : mat) (p : mat_probe) : res unit :=
+  if negb (mat_wfb m) then OOB else
+  let r := m_rows m in let c := m_cols m in
+  match p with
+  | PNone => Ok tt
+  | PAt i => guard_mat_index r i
+  | PRow i => guard_row r i ;; (let* l := getZ (m_lens m) i in guard_vec_binary c l)   (* Vector(Columns()) + Return_Row(i) *)
+  | PCol j => guard_return_column r c j ;; guard_vec_binary r r                           (* Vector(Rows()) + Return_Column(j) *)
+  | PPlus r' c' => guard_mat_plus r c r' c'
+  | PPlusEq r' c' => guard_mat_pluseq r c r' c'
+  | PMul r' c' => guard_mat_product r c r' c'
+  | PLMul r' c' => guard_mat_product r' c' r c
+  | PMatVec d => guard_mat_vec r c d
+  | PVecMat d => guard_vec_mat d r c
+  | PTrace => guard_trace r c
+  | PDet => guard_determinant r c
+  | PTranspose => guard_transpose r c
+  | PSub i j => guard_sub_matrix r c i j
+  | PEq => for_range 0 r (fun i => for_range 0 c (fun j => guard_mat_index r i ;; at_ c j ;; guard_mat_index r i ;; at_ c j))
+  end.
+(** Matrix M(r, c, entry); the history; the probe; what Rows(), Columns() and the rows of M then are *)
+Definition mat_session (r c : Z) (ops : list mat_op) (p : mat_probe) : res mat :=
+  let* m := mat_history (mat_new r c) ops in mat_probe_guard m p ;; Ok m.
+Definition mat_bad_rows (m : mat) : Z :=
+  zlen (filter (fun l => negb (l =? m_cols m)) (firstn (Z.to_nat (m_rows m)) (m_lens m))).
